@@ -15,6 +15,7 @@ import (
 	"go/token"
 	"go/types"
 	"sort"
+	"strings"
 )
 
 func (c *Ctx) isTokenPtr(t types.Type) bool {
@@ -546,4 +547,114 @@ func (k *nnCtx) appendsInherited(id *ast.Ident, fd *ast.FuncDecl, judgeElems fun
 		return true
 	})
 	return ok && n > 0
+}
+
+// GLOBAL-STATE: the interpreter keeps no mutable state in package-level variables — every
+// VM, every value and every iterator owns what it works on, which is what makes two loops
+// over strings, two VMs in one host, or a native calling back into a script independent of
+// each other.  Every package-level variable of the library is written only where it is
+// initialised: at its declaration or in an init function.  A write is an assignment to the
+// variable, to an element, field or slice of it, an inc/dec, or a delete on it; handing out
+// its address is a write too.  Exempt by name: osReadFile / osWriteFile (test seams for the
+// os functions, never assigned by the library itself — the rule still checks that).
+func ruleGlobalState(c *Ctx, r *R) {
+	scope := c.Pkg.Types.Scope()
+	vars := map[types.Object]bool{}
+	for _, nm := range scope.Names() {
+		if v, ok := scope.Lookup(nm).(*types.Var); ok {
+			vars[v] = true
+		}
+	}
+	written := map[types.Object][]string{}
+	rootVar := func(e ast.Expr) types.Object {
+		for {
+			switch x := unparen(e).(type) {
+			case *ast.Ident:
+				if o := c.Obj(x); o != nil && vars[o] {
+					return o
+				}
+				return nil
+			case *ast.IndexExpr:
+				e = x.X
+			case *ast.SliceExpr:
+				e = x.X
+			case *ast.SelectorExpr:
+				// pkgvar.field — but not otherpkg.Name
+				if id, ok := unparen(x.X).(*ast.Ident); ok {
+					if _, isPkg := c.Obj(id).(*types.PkgName); isPkg {
+						return nil
+					}
+				}
+				e = x.X
+			case *ast.StarExpr:
+				e = x.X
+			default:
+				return nil
+			}
+		}
+	}
+	for _, f := range c.Pkg.Syntax {
+		if strings.HasSuffix(c.Fset.Position(f.Pos()).Filename, "_test.go") {
+			continue
+		}
+		ast.Inspect(f, func(n ast.Node) bool {
+			note := func(o types.Object, at ast.Node, how string) {
+				if o == nil {
+					return
+				}
+				if fd := c.EnclosingFunc(at); fd != nil && fd.Recv == nil && fd.Name.Name == "init" {
+					return
+				}
+				written[o] = append(written[o], how+" at "+c.Pos(at))
+			}
+			switch x := n.(type) {
+			case *ast.AssignStmt:
+				if x.Tok == token.DEFINE {
+					// a := ... declares locals; a package-level name on the left would be shadowed, not written
+					for _, l := range x.Lhs {
+						if id, ok := l.(*ast.Ident); ok && c.Info.Defs[id] != nil {
+							continue
+						}
+						note(rootVar(l), x, "assigned")
+					}
+					return true
+				}
+				for _, l := range x.Lhs {
+					note(rootVar(l), x, "assigned")
+				}
+			case *ast.IncDecStmt:
+				note(rootVar(x.X), x, "stepped")
+			case *ast.CallExpr:
+				if c.CalleeName(x) == "builtin.delete" && len(x.Args) > 0 {
+					note(rootVar(x.Args[0]), x, "entry deleted")
+				}
+				if (c.CalleeName(x) == "builtin.copy" || c.CalleeName(x) == "builtin.clear") && len(x.Args) > 0 {
+					note(rootVar(x.Args[0]), x, "overwritten")
+				}
+			case *ast.UnaryExpr:
+				if x.Op == token.AND {
+					note(rootVar(x.X), x, "address taken")
+				}
+			case *ast.RangeStmt:
+				if x.Tok == token.ASSIGN {
+					if x.Key != nil {
+						note(rootVar(x.Key), x, "assigned by range")
+					}
+					if x.Value != nil {
+						note(rootVar(x.Value), x, "assigned by range")
+					}
+				}
+			}
+			return true
+		})
+	}
+	for _, nm := range scope.Names() {
+		o := scope.Lookup(nm)
+		if !vars[o] {
+			continue
+		}
+		ws := written[o]
+		r.check(len(ws) == 0, "package variable "+nm, c.PosP(o.Pos()), "written only where it is initialised",
+			"the package-level variable "+nm+" is "+strings.Join(ws, "; ")+" outside initialisation: state shared by every VM, value and iterator of the process — e.g. decode buffers shared by all `for range` loops over strings make a nested (or called) loop refill the buffer the outer loop is still walking (`for _, x := range \"héy\" { for _, y := range \"01\" {..} }` visits h, '1', y), and two VMs of one host interfere")
+	}
 }
